@@ -32,6 +32,9 @@ def _find(pm, cls, name):
 # ---------------------------------------------------------------------------------------------- dispatch evaluation
 def _test_kinds(test, opname):
     """set of operand kinds for which `test` is true, or None if the test is not understood"""
+    if isinstance(test, ast.UnaryOp) and isinstance(test.op, ast.Not):
+        inner = _test_kinds(test.operand, opname)
+        return None if inner is None else set(KINDS) - inner
     if isinstance(test, ast.Call) and isinstance(test.func, ast.Name) and test.func.id == "isinstance" \
             and isinstance(test.args[0], ast.Name) and test.args[0].id == opname:
         c = test.args[1]
@@ -125,7 +128,8 @@ def evaluate(pm, cls, mname, kind, depth=0, swapped=False):
                 if r is not None:
                     return r
             elif isinstance(s, ast.Return):
-                v = s.value
+                from ..astutil import returned_expr
+                v = returned_expr(s, fn)
                 if isinstance(v, ast.Call) and isinstance(v.func, ast.Name) and v.func.id in CTOR_PARAMS:
                     o = _ctor_outcome(cls, fn, v, swapped, localdefs)
                     o.okind = kind
@@ -846,7 +850,8 @@ def r_summary(E):
                 continue
             stores = bool(_stores_into_value(fn))
             rets = [n for n in ast.walk(fn) if isinstance(n, ast.Return) and n.value is not None]
-            ret_self = [n for n in rets if isinstance(n.value, ast.Name) and n.value.id == "self"]
+            from ..astutil import returned_expr as _rx
+            ret_self = [n for n in rets if isinstance(_rx(n, fn), ast.Name) and _rx(n, fn).id == "self"]
             if cls == "EmptyExplainableObject" and name in ("to",):
                 continue
             want_inplace = s["inplace"] is not None and not (s["inplace"] == "value-EQ" and cls != "ExplainableQuantity")
@@ -879,8 +884,9 @@ def r_summary(E):
                 # every return path must record the explainable argument: a constructor (checked by R-OPPAR) or a
                 # delegation that hands self over to the argument's own method
                 eparams = [a.arg for a in fn.args.args[1:] if a.arg in E_PARAM_NAMES]
+                from ..astutil import returned_expr
                 for r in rets:
-                    v = r.value
+                    v = returned_expr(r, fn)
                     is_ctor = isinstance(v, ast.Call) and (
                         (isinstance(v.func, ast.Name) and v.func.id in CTOR_PARAMS) or norm(v.func) == "self.__class__")
                     is_deleg = isinstance(v, ast.Call) and isinstance(v.func, ast.Attribute) and \
